@@ -1,5 +1,6 @@
 '''C15 Axis reductions equal the independent per-column / per-row computation.'''
 from sfa.report import Ctx
+from sfa.rules import flowmisc
 from sfa.rules import narules
 from sfa.rules import forwardrules
 from sfa.rules import axisrules
@@ -14,7 +15,7 @@ LEVEL_TEXT = (
     'with the caller\'s axis and skipna, the arg-extreme helpers bind np.argmin/np.nanargmin (max likewise), every parameter reaches TypeBlocks.ufunc_axis_skipna under '
     'its own name, cumulative forms keep both label sets; (c) per path of util.ufunc_axis_skipna the skipna flag selects the NaN-aware ufunc and its absence the plain '
     'one, with the caller\'s axis and out (datetime branch excepted, as documented in the code); (d) block-layout independence: a per-block cast guarded by a test on the '
-    'block\'s dimensionality has a sibling cast on the other layout. Option forwarding: in every reduction worker each call to a resolved callee that accepts a parameter named like one of the function\'s own parameters passes it on (confirmed exceptions listed in sfa/rules/forwardrules.py). Finite case analysis over the eleven dtype kinds: in isna_array, _ufunc_logical_skipna and the arg-extreme helpers no return is reachable for a kind that can hold a missing value (f, c, M, m, O) before a missing-value predicate was consulted. Sibling defaults: a parameter taken by the same-named method of several container classes has the same default in each (confirmed exceptions listed in sfa/rules/forwardrules.py). Not decided: every numeric result, NumPy\'s own NaN propagation, overflow of composable axis-1 reductions.')
+    'block\'s dimensionality has a sibling cast on the other layout. Option forwarding: in every reduction worker each call to a resolved callee that accepts a parameter named like one of the function\'s own parameters passes it on (confirmed exceptions listed in sfa/rules/forwardrules.py). Finite case analysis over the eleven dtype kinds: in isna_array, _ufunc_logical_skipna and the arg-extreme helpers no return is reachable for a kind that can hold a missing value (f, c, M, m, O) before a missing-value predicate was consulted. Sibling defaults: a parameter taken by the same-named method of several container classes has the same default in each (confirmed exceptions listed in sfa/rules/forwardrules.py). Out parameter: every value-return of a reduction helper that takes `out=` forwards `out` or has stored into it (the block-wise reducer drops the return value for 2-D blocks). Not decided: every numeric result, NumPy\'s own NaN propagation, overflow of composable axis-1 reductions.')
 
 CLAIM = dict(
     text=LEVEL_TEXT,
@@ -31,3 +32,4 @@ def run(ctx: Ctx) -> None:
     forwardrules.forwarding(ctx, modules=None, prefixes=('_ufunc', 'loc_min', 'loc_max', 'iloc_min', 'iloc_max', 'cov', 'cumsum', 'cumprod', 'ufunc'), suffix='reduce', floor=54, what='reduction worker')
     narules.nullable_kinds(ctx)
     forwardrules.sibling_defaults(ctx, prefixes=('_ufunc', 'loc_min', 'loc_max', 'iloc_min', 'iloc_max', 'cov', 'cumsum', 'cumprod', 'ufunc', 'sum', 'mean', 'min', 'max', 'std', 'var', 'median', 'prod', 'all', 'any'), suffix='reduce', floor=8)
+    flowmisc.out_parameter_written(ctx)
